@@ -243,7 +243,7 @@ def gen_object_spec(rng, kind, ndim=None, with_subs=True, units=True):
             labels = rng.choice([None, [f"c{i}" for i in range(nv)]])
             vd = labels or (["x", "y", "z"][:nv] if nv <= 3 else [f"v{i}" for i in range(nv)])
             spec["vdims"] = labels
-            mode = rng.choice(["perm", "perm", "partial", "none", "default"])
+            mode = rng.choice(["perm", "perm", "partial", "none", "default", "double"])
             if mode == "default":
                 spec["vmap"] = None
             elif mode == "none":
@@ -255,6 +255,12 @@ def gen_object_spec(rng, kind, ndim=None, with_subs=True, units=True):
                 order = rng.sample(vd, len(vd))
                 # every label is a key; labels without a spatial axis map to None
                 spec["vmap"] = [[lab, (tgt[i] if i < len(tgt) else None)] for i, lab in enumerate(order)]
+                if mode == "double" and len(order) > len(tgt) >= 1:
+                    # two labels mapped onto the same axis (the reversed mapping keeps the LAST of them)
+                    free = [e for e in spec["vmap"] if e[1] is None]
+                    rng.choice(free)[1] = rng.choice(tgt)
+                elif mode == "double" and len(order) >= 2:
+                    spec["vmap"][rng.randrange(1, len(order))][1] = spec["vmap"][0][1]
     return spec
 
 
